@@ -280,11 +280,54 @@ func nilEdgeDominates(call *ssa.Call, blk *ssa.BasicBlock) bool {
 		return false
 	}
 	for _, i := range allIfs(call.Parent()) {
-		if nilS, _, ok := nilBranches(i, errV); ok && nilS.Dominates(blk) {
+		if nilS, nonNil, ok := nilBranches(i, errV); ok && edgeOnly(i, nilS, nonNil, blk) {
 			return true
 		}
 	}
+	// the error may be kept in a cell (named result captured by a deferred closure): *cell = err; if *cell != nil
+	for _, alias := range cellLoadsOf(errV) {
+		for _, i := range allIfs(call.Parent()) {
+			if nilS, nonNil, ok := nilBranches(i, alias); ok && edgeOnly(i, nilS, nonNil, blk) {
+				return true
+			}
+		}
+	}
 	return false
+}
+
+// cellLoadsOf: loads that read v back from a local cell it was just stored into (same block, no store in between).
+func cellLoadsOf(v ssa.Value) []ssa.Value {
+	var out []ssa.Value
+	refs := v.Referrers()
+	if refs == nil {
+		return nil
+	}
+	for _, rf := range *refs {
+		st, ok := rf.(*ssa.Store)
+		if !ok || st.Val != v {
+			continue
+		}
+		if _, isAl := st.Addr.(*ssa.Alloc); !isAl {
+			continue
+		}
+		after := false
+		for _, in := range st.Block().Instrs {
+			if in == ssa.Instruction(st) {
+				after = true
+				continue
+			}
+			if !after {
+				continue
+			}
+			if s2, ok := in.(*ssa.Store); ok && s2.Addr == st.Addr {
+				break
+			}
+			if u, ok := in.(*ssa.UnOp); ok && u.X == st.Addr {
+				out = append(out, u)
+			}
+		}
+	}
+	return out
 }
 
 func ruleR183(p *Program, r *Report) {
@@ -674,4 +717,21 @@ func init() {
 	mut("C18", "v2 public-only export keeps symmetric keys", "keystore/v2/keystore/filesystem/export.go", "		data.PrivateKey = nil\n		data.SymmetricKey = nil\n", "		data.PrivateKey = nil\n", "R18.5", "public-only")
 	mut("C18", "copyKey rejects destroyed keys again (original defect)", "keystore/v2/keystore/filesystem/key.go", "	if len(other.Data) == 0 && api.KeyState(other.State) != api.KeyDestroyed {", "	if len(other.Data) == 0 {", "R18.6", "destroyed key")
 	mut("C18", "migration loses the HMAC key case", "keystore/v2/keystore/importV1.go", "	case keystore.PurposeSearchHMAC:", "	case keystore.PurposeUndefined:", "R18.7", "PurposeSearchHMAC")
+}
+
+// edgeOnly: blk is reached from the If only through successor `taken`: taken dominates blk and the other
+// successor cannot reach blk without going through the If again (a then-block that falls through to the join
+// makes the join the 'nil successor' although the error edge reaches it too).
+func edgeOnly(i *ssa.If, taken, other, blk *ssa.BasicBlock) bool {
+	if !taken.Dominates(blk) {
+		return false
+	}
+	if other == taken {
+		return false
+	}
+	avoid := map[*ssa.BasicBlock]bool{i.Block(): true}
+	if other == blk || reaches(other, blk, avoid) {
+		return false
+	}
+	return true
 }
